@@ -43,6 +43,7 @@ func (f FuncSpec) lean() string {
 
 var whitelist = []FuncSpec{
 	{"pkg/provider", "", "isXSBooleanTrue"},
+	{"pkg/provider", "", "equalCertificateText"},
 	{"pkg/provider", "", "GetAcsUrlAndBindingForResponse"},
 	{"pkg/provider", "", "signaturePostProvided"},
 	{"pkg/provider", "", "signaturePostVerificationNecessary"},
@@ -1447,6 +1448,10 @@ func (c *tctx) libCall(pkg, name string, x *ast.CallExpr) val {
 		return val{e: fmt.Sprintf("(Lib.trimSuffix %s %s)", es[0], es[1]), g: g}
 	case "strings.HasPrefix":
 		return val{e: fmt.Sprintf("(Lib.hasPrefix %s %s)", es[0], es[1]), g: g}
+	case "strings.Fields":
+		return val{e: "(Lib.fields " + es[0] + ")", g: g}
+	case "strings.Join":
+		return val{e: fmt.Sprintf("(Lib.join %s %s)", es[0], es[1]), g: g}
 	case "strings.HasSuffix":
 		return val{e: fmt.Sprintf("(Lib.hasSuffix %s %s)", es[0], es[1]), g: g}
 	case "fmt.Errorf", "errors.New":
